@@ -130,6 +130,18 @@ def workload(tier, seed, scale=1.0):
             cmds.append(cmd_fromradix([1, radix, 1], radix, 'U', cell=('fromradix-baddigit', radix % 8)))
             cmds.append(cmd_fromradix([radix], radix, 'I+', cell=('fromradix-baddigit1', radix % 8)))
             cmds.append(cmd_fromradix([255, 1], radix, 'U', cell=('fromradix-255', radix % 8)))
+    # special-value pool through text and digit conversions in every radix
+    from ..core import special_values
+    pool = special_values()
+    for radix in range(2, 257):
+        for v in (pool if not quick else pool[radix % 4::4]):
+            kind = rnd.choice('UI')
+            sv = v if kind == 'U' else -v
+            cmds.append(cmd_toradix(sv, radix, kind, cell=('toradix-pool', radix, v.bit_length() // 32)))
+            if radix <= 36:
+                cmds.append(cmd_tostr(sv, radix, kind, cell=('tostr-pool', radix, v.bit_length() // 32)))
+                cmds.append(cmd_fromstr(tostr(sv, radix).encode(), radix, kind, cell=('fromstr-pool', radix, v.bit_length() // 32)))
+            cmds.append(cmd_fromradix(radix_digits_le(v, radix), radix, 'U', cell=('fromradix-pool', radix, v.bit_length() // 32)))
     # long inputs in power-of-two radices whose top partial word is zero (normalisation of parse results)
     for radix in (2, 4, 8, 16, 32, 64, 128, 256):
         bits = radix.bit_length() - 1
